@@ -1370,6 +1370,82 @@ fn script_liquidity_ceiling(h: &mut Hist, r: &mut Rng) {
     h.bump("history:liquidity-ceiling-script");
 }
 
+/// A scripted history with *heavy* deposits: two parties deposit into the same pool in the same block, in the same
+/// proportion but sixteen-fold apart in size, with a weight `sqrt(left) * sqrt(right)` at or beyond 2^64 (a new token of
+/// huge supply against a little MEL) — the new liquidity is shared out by those weights, 1/17 : 16/17, whatever their size.
+/// Afterwards both redeem what they got.
+fn script_heavy_deposits(h: &mut Hist, r: &mut Rng) {
+    let a0 = h.wallet.spec_addr(CovSpec::StdNew(0));
+    let a1 = h.wallet.spec_addr(CovSpec::StdNew(1));
+    let network = *r.pick(&[NetID::Custom02, NetID::Custom03, NetID::Mainnet]);
+    let cfg = GenesisConfig {
+        network,
+        init_coindata: crate::txgen::out(a0, 1u128 << 40, Denom::Mel),
+        stakes: BTreeMap::new(),
+        init_fee_pool: CoinValue(0),
+        init_fee_multiplier: 0,
+    };
+    let mut u = h.op_genesis(cfg);
+    // the genesis coin is split: [m, 16 m, 3, 3] MEL, and the same transaction makes a new token: [t, 16 t]
+    let (mexp, texp) = *r.pick(&[(12u32, 116u32), (12, 116), (20, 108), (30, 100), (8, 60)]);
+    let (m, t) = (1u128 << mexp, 1u128 << texp);
+    let gen = WCoin { id: CoinID::zero_zero(), cdh: CoinDataHeight { coin_data: crate::txgen::out(a0, 1u128 << 40, Denom::Mel), height: BlockHeight(0) }, spec: CovSpec::StdNew(0) };
+    let rest = (1u128 << 40) - 17 * m - 6;
+    let mk = assemble(&h.wallet, TxKind::Normal, &[gen], vec![
+        crate::txgen::out(a0, m, Denom::Mel), crate::txgen::out(a1, 16 * m, Denom::Mel), crate::txgen::out(a0, 3, Denom::Mel), crate::txgen::out(a1, 3, Denom::Mel),
+        crate::txgen::out(a0, t, Denom::NewCustom), crate::txgen::out(a1, 16 * t, Denom::NewCustom), crate::txgen::out(a0, rest, Denom::Mel),
+    ], 0, vec![]);
+    h.w.names.reg_tx(&mk);
+    let Some(u1) = h.op_batch(&u, &[mk.clone()], "heavy:make-token") else { return };
+    let seal_next = |h: &mut Hist, u: &str| -> Option<String> {
+        let s = h.op_seal(u, None)?;
+        h.op_next(&s)
+    };
+    let Some(u2) = seal_next(h, &u1) else { return };
+    u = u2;
+    let tok = Denom::Custom(mk.hash_nosigs());
+    let key = PoolKey::new(Denom::Mel, tok);
+    h.w.names.reg_poolkey(key);
+    let liq = key.liq_token_denom();
+    let mc = |i: u8, who: usize, v: u128, d: Denom| WCoin {
+        id: mk.output_coinid(i),
+        cdh: CoinDataHeight { coin_data: crate::txgen::out(if who == 0 { a0 } else { a1 }, v, d), height: BlockHeight(0) },
+        spec: CovSpec::StdNew(who),
+    };
+    let (l, rr) = (key.left(), key.right());
+    let dep = |h: &mut Hist, who: usize, mel_i: u8, tok_i: u8, k: u128| {
+        let (cm, ct) = (mc(mel_i, who, k * m, Denom::Mel), mc(tok_i, who, k * t, tok));
+        let addr = if who == 0 { a0 } else { a1 };
+        let (cl, cr, vl, vr) = if l == Denom::Mel { (cm, ct, k * m, k * t) } else { (ct, cm, k * t, k * m) };
+        let d = assemble(&h.wallet, TxKind::LiqDeposit, &[cl, cr], vec![crate::txgen::out(addr, vl, l), crate::txgen::out(addr, vr, rr)], 0, key.to_bytes().to_vec());
+        h.w.names.reg_tx(&d);
+        d
+    };
+    let (da, db) = (dep(h, 0, 0, 4, 1), dep(h, 1, 1, 5, 16));
+    let both = if r.chance(1, 2) { vec![da.clone(), db.clone()] } else { vec![db.clone(), da.clone()] };
+    let Some(u3) = h.op_batch(&u, &both, "heavy:two-deposits-one-block") else { return };
+    let Some(u4) = seal_next(h, &u3) else { return };
+    // both redeem
+    let cm = CoinMapping::new(h.parts(&u4).coins.clone());
+    let mut wds = vec![];
+    for (d, who, fee_i) in [(&da, 0usize, 2u8), (&db, 1usize, 3u8)] {
+        if let Some(c) = cm.get_coin(d.output_coinid(0)) {
+            if c.coin_data.denom == liq && c.coin_data.value.0 > 0 {
+                let ins = vec![mc(fee_i, who, 3, Denom::Mel), WCoin { id: d.output_coinid(0), cdh: c.clone(), spec: CovSpec::StdNew(who) }];
+                let wd = assemble(&h.wallet, TxKind::LiqWithdraw, &ins, vec![crate::txgen::out(if who == 0 { a0 } else { a1 }, c.coin_data.value.0, liq)], 3, key.to_bytes().to_vec());
+                h.w.names.reg_tx(&wd);
+                wds.push(wd);
+            }
+        }
+    }
+    if !wds.is_empty() {
+        if let Some(u5) = h.op_batch(&u4, &wds, "heavy:withdraw") {
+            let _ = seal_next(h, &u5);
+        }
+    }
+    h.bump("history:heavy-deposits-script");
+}
+
 /// A scripted history with *dust* withdrawals: a pool is opened, a large swap makes it lopsided (one reserve far above,
 /// the other far below the recorded liquidity), the depositor splits the liquidity tokens into coins of 1, 1, 2 and the
 /// rest, and redeems them — the dust first (two in one batch), the rest a block later.  The share of the thin side of a
@@ -1986,6 +2062,10 @@ fn history_body(h: &mut Hist, r: &mut Rng, em: &Emphasis) {
     }
     if em.pool_ops >= 10 && r.chance(1, 16) {
         script_dust_withdrawal(h, r);
+        return;
+    }
+    if em.pool_ops >= 10 && r.chance(1, 16) {
+        script_heavy_deposits(h, r);
         return;
     }
     if em.tip_edges > 0 && r.chance(1, 10) {
